@@ -19,7 +19,7 @@ def edit_tree(rng, tree):
     edits = []
     for _ in range(rng.randrange(0, 5)):
         files = [(p, n) for p, n in T.all_paths(t) if n[0] == "f"]
-        kind = rng.choice(["modify", "add", "delete", "rename", "rewrite", "excluded"])
+        kind = rng.choice(["modify", "add", "delete", "rename", "rewrite", "excluded", "stamp"])
         if kind == "add" or not files:
             t["added%d" % rng.randrange(100)] = ("f", b"new\n")
             edits.append("add")
@@ -32,6 +32,10 @@ def edit_tree(rng, tree):
         name = comps[-1]
         if kind == "modify":
             parent[name] = ("f", n[1] + b"!")
+        elif kind == "stamp":
+            # other content of the same length; on disk it is written in place and the time stamps are put back
+            if n[1]:
+                parent[name] = ("f", bytes([n[1][0] ^ 1]) + n[1][1:])
         elif kind == "delete":
             del parent[name]
         elif kind == "rename":
@@ -64,16 +68,53 @@ def gen_paths(rng, tree, local_tree):
     return chosen
 
 
-def run_impl(local_tree, products, paths, patterns, lstrip):
+def apply_in_place(root, old, new):
+    """Turns the tree `old` on disk into `new`: unchanged entries are left alone, a file whose content changed but whose
+    length did not is overwritten in place with its time stamps restored, everything else is removed and created."""
+    for name in sorted(set(old) | set(new)):
+        p = os.path.join(root, name)
+        a, b = old.get(name), new.get(name)
+        if a == b:
+            continue
+        if a and b and a[0] == "d" and b[0] == "d":
+            apply_in_place(p, a[1], b[1])
+            continue
+        if a and b and a[0] == "f" and b[0] == "f" and len(a[1]) == len(b[1]):
+            st = os.stat(p)
+            with open(p, "r+b") as f:
+                f.write(b[1])
+            os.utime(p, ns=(st.st_atime_ns, st.st_mtime_ns))
+            continue
+        if a is not None:
+            if a[0] == "d":
+                shutil.rmtree(p)
+            else:
+                os.remove(p)
+        if b is not None:
+            T.materialise({name: b}, root)
+
+
+def run_impl(local_tree, products, paths, patterns, lstrip, first_tree=None):
     d = tempfile.mkdtemp(prefix="verif-c19-")
     cwd = os.getcwd()
     try:
-        T.materialise(local_tree, os.path.join(d, "t"))
-        os.chdir(os.path.join(d, "t"))
         import in_toto.runlib as rl
         from in_toto.models.link import Link
         from in_toto.models.metadata import Metablock, Envelope
         link = Link(name="s", products=products)
+        if first_tree is not None:
+            # the tree as recorded is compared once (whatever an implementation remembers about it), then edited in place
+            T.materialise(first_tree, os.path.join(d, "t"))
+            os.chdir(os.path.join(d, "t"))
+            try:
+                rl.in_toto_match_products(link, paths=paths, exclude_patterns=patterns or None, lstrip_paths=lstrip)
+            except Exception:  # pylint: disable=broad-except
+                pass
+            os.chdir(cwd)
+            apply_in_place(os.path.join(d, "t"), first_tree, local_tree)
+        else:
+            T.materialise(local_tree, os.path.join(d, "t"))
+        os.chdir(os.path.join(d, "t"))
         try:
             r = rl.in_toto_match_products(link, paths=paths, exclude_patterns=patterns or None, lstrip_paths=lstrip)
             i = {"ok": [sorted(x) for x in r]}
@@ -120,7 +161,7 @@ def one_case(rng, res):
     products = {k: {"sha256": v} for k, v in ref_p[1].items()}
     local = {k: {"sha256": v} for k, v in ref_l[1].items()}
     desc = {"edits": edits, "patterns": patterns, "lstrip": lstrip, "paths": paths, "n_products": len(products)}
-    i, statuses = run_impl(local_tree, products, paths, patterns, lstrip)
+    i, statuses = run_impl(local_tree, products, paths, patterns, lstrip, first_tree=tree if rng.random() < 0.6 else None)
     m = core.driver().call({"op": "match_products",
                             "products": [[k, [["sha256", v["sha256"]]]] for k, v in products.items()],
                             "local": [[k, [["sha256", v["sha256"]]]] for k, v in local.items()]})
